@@ -175,6 +175,9 @@ fn pv_playable(p: &Pos, pv: &[String]) -> Result<(), (usize, String)> {
 
 impl Hist {
     fn judge_search(&self, p: &Pos, history_text: &str, depth: u8, best: &Option<String>, lines: &[String], table_had_root: bool, repetition: bool, step_no: usize, ev: &mut Ev) -> Result<(), Fail> {
+        if std::env::var("VCHECK_DEBUG").is_ok() {
+            eprintln!("[debug] step {} : {} ; go depth {} -> {:?} ; depths {:?} scores {:?}", step_no, history_text, depth, best, crate::uci::info_depths(lines), lines.iter().filter_map(|l| l.strip_prefix("info score cp ")).collect::<Vec<_>>());
+        }
         let legal: Vec<String> = p.legal().iter().map(|m| m.uci()).collect();
         match self.which {
             Which::C06 => {
